@@ -1,4 +1,5 @@
 """C15 - ODS sheets are read as the logical table they contain."""
+import io
 import os
 import shutil
 import tempfile
@@ -24,7 +25,9 @@ RULE = (
     "equal the k-th table given to the encoder, modulo trailing empty cells / rows. Plus a fixed corpus with each "
     "feature alone. Faults (each must raise DataFormatError on both paths): archive cut at every 64th byte, bytes "
     "that are no zip, archive without content.xml, content.xml cut at every tag boundary or otherwise malformed, "
-    "repeat count 0 / negative / non-numeric on a cell or a row of the sheet read, sheet number beyond the last. "
+    "repeat count 0 / negative / non-numeric on a cell or a row of the sheet read, sheet number beyond the last, "
+    "the member content.xml damaged behind an intact archive directory (header magic, header zeroed, CRC, method, "
+    "payload bytes changed). "
     "A case is one file (all sheets, both paths) or one fault family on one file; it is non-trivial when the file "
     "has a run >= 2, a whitespace element, a span, a second or empty paragraph, or when it is a fault; distinct by "
     "hash of (sheets, options, fault)."
@@ -50,9 +53,13 @@ NONEMPTY_POOL = [
 ]
 ALPHABET = "ab  \t\n<>&\"'\u00e4\u20ac\u4e2d\U0001f600\u00a0;#"
 FAULT_KINDS = ["truncated", "not-zip", "no-content", "xml-cut", "xml-malformed", "col-repeat", "row-repeat",
-               "missing-sheet"]
+               "missing-sheet", "member-damaged"]
 REPEAT_VALUES = {"0": "nonpositive", "-1": "nonpositive", "-7": "nonpositive", "x": "nonnumeric", "": "nonnumeric",
-                 "two": "nonnumeric"}
+                 "two": "nonnumeric",
+                 # no whole numbers, whatever str.isdigit() / str.isnumeric() make of some of their characters
+                 "1.5": "nonnumeric", "2.0": "nonnumeric", "1e1": "nonnumeric", "0x2": "nonnumeric", "2x": "nonnumeric",
+                 "--2": "nonnumeric", "NaN": "nonnumeric", "1,0": "nonnumeric", "\u00b2": "nonnumeric",
+                 "1\u00b2": "nonnumeric", "\u2460": "nonnumeric", "\u00bd": "nonnumeric", "\u4e09": "nonnumeric"}
 LOSS_KINDS = ("s", "tab", "line-break", "span", "tail", "paragraphs", "empty-paragraph")
 
 
@@ -504,6 +511,42 @@ def check_fault_case(sub, case):
                 if only is None or only == number:
                     instances += 1
                     _expect_format_error(sub, case, fault, number, _write(tmpdir, data), 1, classes)
+        elif fault == "member-damaged":
+            # the archive's directory at the end stays intact; the member content.xml it points to does not
+            import struct
+            import zipfile
+
+            data = _build(case)["archive"]
+            with zipfile.ZipFile(io.BytesIO(data)) as archive_:
+                info = archive_.getinfo("content.xml")
+            at = info.header_offset
+            name_length, extra_length = struct.unpack("<HH", data[at + 26:at + 30])
+            start = at + 30 + name_length + extra_length
+            size = info.compress_size
+            middle = start + size // 2
+            variants = [
+                ("header-magic", data[:at] + b"XX" + data[at + 2:]),
+                ("header-zeroed", data[:at] + b"\x00" * 30 + data[at + 30:]),
+                ("crc-changed", data[:at + 14] + bytes(b ^ 0xFF for b in data[at + 14:at + 18]) + data[at + 18:]),
+                ("method-changed", data[:at + 8] + (b"\x00\x00" if info.compress_type else b"\x08\x00") + data[at + 10:]),
+                ("payload-first-byte", data[:start] + bytes([data[start] ^ 0xFF]) + data[start + 1:]),
+                ("payload-middle", data[:middle] + bytes(b ^ 0x55 for b in data[middle:middle + 4]) + data[middle + 4:]),
+                ("payload-zeroed", data[:start] + b"\x00" * size + data[start + size:]),
+                ("payload-last-byte", data[:start + size - 1] + bytes([data[start + size - 1] ^ 0xFF]) + data[start + size:]),
+            ]
+            sheet = 1 + len(data) % len(sheets)
+            for detail, damaged in variants:
+                if only is None or only == detail:
+                    # leave out damage that happens to yield the same file, or one zipfile still reads as the original
+                    try:
+                        with zipfile.ZipFile(io.BytesIO(damaged)) as archive_:
+                            if archive_.read("content.xml") == _build(case)["content"]:
+                                classes.add("fault-harmless")
+                                continue
+                    except Exception:
+                        pass
+                    instances += 1
+                    _expect_format_error(sub, case, fault, detail, _write(tmpdir, damaged), sheet, classes)
         elif fault in ("xml-cut", "xml-malformed"):
             built = _build(case)
             xml = built["xml"]
